@@ -35,6 +35,8 @@ GraphCheck(c) ==
      ELSE /\ (Agrees(c.obs.local, st) \/ PrintT(<<"MISMATCH", c.id, "local", Kind(c.obs.local), ToJson(Summary(st))>>))
           /\ (Agrees(c.obs.fs, st) \/ PrintT(<<"MISMATCH", c.id, "fs", Kind(c.obs.fs), ToJson(Summary(st))>>))
           /\ (Agrees(c.obs.again, st2) \/ PrintT(<<"MISMATCH", c.id, "again", Kind(c.obs.again), ToJson(Summary(st2))>>))
+          \* the main program fed statement by statement to one compiler and one VM (REPL): the same final state
+          /\ (Agrees(c.obs.repl, st) \/ PrintT(<<"MISMATCH", c.id, "repl", Kind(c.obs.repl), ToJson(Summary(st))>>))
 
 \* ---------------------------------------------------------------- path cases
 NameOfSeg(seg) == IF seg = <<97>> THEN "a" ELSE IF seg = <<98>> THEN "b" ELSE "other"
